@@ -316,6 +316,15 @@ func bbPrepare(b *sonic.ByteBuffer, f []string) (string, func() string) {
 	case "reserve":
 		n := resolveInt(b, f[1])
 		return fmt.Sprintf("reserve %d", n), func() string { b.Reserve(n); return "unit" }
+	case "prefault":
+		// Prefault() zeroes the whole capacity: only meaningful (and only made) while nothing is buffered; then it leaves the three
+		// regions as they are, like Reserve(0) — which is what the model is told. With bytes buffered the call is not made.
+		return "prefault", func() string {
+			if b.Len() == 0 {
+				b.Prefault()
+			}
+			return "unit"
+		}
 	case "commit":
 		n := resolveInt(b, f[1])
 		return fmt.Sprintf("commit %d", n), func() string { b.Commit(n); return "unit" }
@@ -644,6 +653,14 @@ func bbGenOp(r *rng, w *bufio.Writer) {
 // save/consume → discard), so that all three regions are usually non-empty.
 func bbGen(r *rng, maxops int, w *bufio.Writer) {
 	fmt.Fprintf(w, "! new\n")
+	// one script in five starts the documented way for a latency-sensitive application: Reserve, then Prefault (which touches the
+	// whole capacity and leaves the three regions as they are: empty); drawn from a generator of its own
+	if side := newRng(r.s ^ 0x243f6a8885a308d3); side.intn(5) == 0 {
+		if side.intn(2) == 0 {
+			fmt.Fprintf(w, "! reserve %d\n", side.pick(1, 100, 513, 4096))
+		}
+		fmt.Fprintf(w, "! prefault\n")
+	}
 	n := 1 + r.intn(maxops)
 	for i := 0; i < n; i++ {
 		switch r.intn(10) {
